@@ -1,0 +1,104 @@
+//go:build verif
+
+package security
+
+// Contracts for channel keys (properties C03, C11, C12). A key is 24 bytes:
+//   0..1 salt, 2..3 master id, 4..7 contract, 8..11 signature, 12..14 target bit path, 15 permissions,
+//   16..19 target hash, 20..23 expiry (seconds since 2010, 0 = never) - all big-endian.
+
+import vs "github.com/emitter-io/emitter/internal/verifspec"
+
+// the 32-bit murmur hash of a channel text is an uninterpreted function of the text in every contract of this package
+//@ opaque github.com/emitter-io/emitter/internal/security/hash.OfString
+//@ opaque github.com/emitter-io/emitter/internal/security/hash.Of
+
+func specBE16(k []byte, i int) uint16 { return uint16(k[i])<<8 | uint16(k[i+1]) }
+func specBE32(k []byte, i int) uint32 {
+	return uint32(k[i])<<24 | uint32(k[i+1])<<16 | uint32(k[i+2])<<8 | uint32(k[i+3])
+}
+
+func pre_Key(k Key) bool { return len(k) == 24 }
+
+// specSameExcept: every byte outside [lo, hi) is as it was (setters change only their own field)
+func specSameExcept(k, old Key, lo, hi int) bool {
+	return vs.Forall(0, lo, func(i int) bool { return k[i] == old[i] }) && vs.Forall(hi, 24, func(i int) bool { return k[i] == old[i] })
+}
+
+//@ verify (Key).Salt pre=pre_Key post=post_Salt props=C03
+func post_Salt(k Key, res0 uint16) bool { return res0 == specBE16(k, 0) }
+
+//@ verify (Key).SetSalt pre=pre_Key post=post_SetSalt props=C03,C11
+func post_SetSalt(k Key, value uint16, old_k Key) bool {
+	return specBE16(k, 0) == value && specSameExcept(k, old_k, 0, 2)
+}
+
+//@ verify (Key).Master pre=pre_Key post=post_Master props=C03,C11
+func post_Master(k Key, res0 uint16) bool { return res0 == specBE16(k, 2) }
+
+//@ verify (Key).SetMaster pre=pre_Key post=post_SetMaster props=C03,C11
+func post_SetMaster(k Key, value uint16, old_k Key) bool {
+	return specBE16(k, 2) == value && specSameExcept(k, old_k, 2, 4)
+}
+
+//@ verify (Key).Contract pre=pre_Key post=post_Contract props=C03,C11,C12
+func post_Contract(k Key, res0 uint32) bool { return res0 == specBE32(k, 4) }
+
+//@ verify (Key).SetContract pre=pre_Key post=post_SetContract props=C03,C11
+func post_SetContract(k Key, value uint32, old_k Key) bool {
+	return specBE32(k, 4) == value && specSameExcept(k, old_k, 4, 8)
+}
+
+//@ verify (Key).Signature pre=pre_Key post=post_Signature props=C03,C11,C12
+func post_Signature(k Key, res0 uint32) bool { return res0 == specBE32(k, 8) }
+
+//@ verify (Key).SetSignature pre=pre_Key post=post_SetSignature props=C03,C11
+func post_SetSignature(k Key, value uint32, old_k Key) bool {
+	return specBE32(k, 8) == value && specSameExcept(k, old_k, 8, 12)
+}
+
+//@ verify (Key).Permissions pre=pre_Key post=post_Permissions props=C03,C11,C12
+func post_Permissions(k Key, res0 uint8) bool { return res0 == k[15] }
+
+//@ verify (Key).SetPermissions pre=pre_Key post=post_SetPermissions props=C03,C11
+func post_SetPermissions(k Key, value uint8, old_k Key) bool {
+	return k[15] == value && specSameExcept(k, old_k, 15, 16)
+}
+
+// a key carries a permission exactly when every bit of the flag is set (read to subscribe, write to publish, ...)
+//@ verify (Key).HasPermission pre=pre_Key post=post_HasPermission props=C03,C11,C12
+func post_HasPermission(k Key, flag uint8, res0 bool) bool { return res0 == (k[15]&flag == flag) }
+
+// a master key is one whose permission byte is exactly AllowMaster
+//@ verify (Key).IsMaster pre=pre_Key post=post_IsMaster props=C03,C11
+func post_IsMaster(k Key, res0 bool) bool { return res0 == (k[15] == AllowMaster) }
+
+//@ verify (Key).SetPermission pre=pre_Key post=post_SetPermission props=C03,C11
+func post_SetPermission(k Key, flag uint8, value bool, old_k Key) bool {
+	want := old_k[15] &^ flag
+	if value {
+		want = old_k[15] | flag
+	}
+	return k[15] == want && specSameExcept(k, old_k, 15, 16)
+}
+
+//@ verify (Key).IsEmpty post=post_IsEmpty props=C03
+func post_IsEmpty(k Key, res0 bool) bool { return res0 == (len(k) == 0) }
+
+// ---------------------------------------------------------------------------------------------------------
+// SetTarget: on error the key is untouched; on success only the target fields (bit path 12..14, hash 16..19)
+// change. (The string functions underneath - Split, Join, TrimRight, HasSuffix - are outside the verified code;
+// what the resulting bit path means for a request is the subject of ValidateChannel, not decided here.)
+
+//@ assume strings.Split iface post=post_strings_Split
+func post_strings_Split(res0 []string) bool { return len(res0) >= 1 }
+
+//@ verify (Key).SetTarget pre=pre_Key post=post_SetTarget props=C03,C11 modular modifies=k
+//@ loop (Key).SetTarget 0 inv inv_SetTarget
+func inv_SetTarget(rangeindex int, parts []string) bool { return -1 <= rangeindex && rangeindex < len(parts) && len(parts) <= 23 }
+func post_SetTarget(k Key, old_k Key, res0 error) bool {
+	if res0 != nil {
+		return specSameExcept(k, old_k, 0, 0)
+	}
+	return vs.Forall(0, 12, func(i int) bool { return k[i] == old_k[i] }) && k[15] == old_k[15] &&
+		vs.Forall(20, 24, func(i int) bool { return k[i] == old_k[i] })
+}
